@@ -86,7 +86,12 @@ def run(F, scopes=None):
             lo_ok = lo == "0" or "(" not in lo and not lo.lstrip("-").isdigit() or (lo.startswith("(") and lo.endswith(" Add 1)"))
             hi_arith = " Sub " in hi or " Add " in hi or " Mul " in hi
             windows = hi_arith and hi.startswith("(%s Add " % lo)          # k .. k + len
-            normal = lo_ok and (not hi_arith or windows)
+            # the k-th block of n consecutive elements: (k * n)..((k + 1) * n) — same length as 0..n, shifted by whole blocks
+            import re
+            m = re.fullmatch(r"\((\S+) Mul (\S+)\)", lo)
+            block = bool(m) and hi in ("((%s Add 1) Mul %s)" % (m.group(1), m.group(2)), "(%s Mul (%s Add 1))" % (m.group(2), m.group(1)),
+                                       "((%s Add 1) Mul %s)" % (m.group(2), m.group(1)), "(%s Mul (%s Add 1))" % (m.group(1), m.group(2)))
+            normal = (lo_ok and (not hi_arith or windows)) or block
             if normal:
                 continue
             iid = "range|%s|%s..%s" % (root, lo, hi)
@@ -99,7 +104,7 @@ def run(F, scopes=None):
             else:
                 r.inst(iid, st.get("span", b.file_line()), "violation")
                 r.fail(iid, st.get("span", b.file_line()),
-                       "%s: the index range `%s..%s` does not have a full-coverage shape (0..n, i..n, i+1..n, k..k+len) and is not a reviewed exception: "
+                       "%s: the index range `%s..%s` does not have a full-coverage shape (0..n, i..n, i+1..n, k..k+len, k*n..(k+1)*n) and is not a reviewed exception: "
                        "elements at the start or the end of the index space are skipped (or an extra one is visited)" % (root, lo, hi))
     r.inst("range|census", "-", "ok", ranges=n, nontrivial=n > 0)
     r.floor("index ranges classified", n, 1)
